@@ -65,7 +65,7 @@ Definition sec_setup (univ : frame) (kw : kwargs) (nrows : nat) (intpos : bool)
   let cs := if class_coupon cls then match kw_cost_short kw with Some f => lookup id f | None => None end else None in
   Ok (mkSec id cls (class_coupon cls && fi) mult intpos (lookup id univ) bo_set bos cps cl cs
             None 0 0 (Some 0) 0 0 0 true 0 (Some 0) 0 0 0 0
-            (zeros nrows) (zeros nrows) (zeros nrows) (zeros nrows) (zeros nrows) (zeros nrows) (zeros nrows)).
+            (zeros nrows) (zeros nrows) (zeros nrows) (zeros nrows) (zeros nrows) (zeros nrows) (zeros nrows) []).
 
 Definition spec_id (s : nspec) : nat := match s with SpSec id _ _ _ _ => id | SpStrat id _ _ _ => id end.
 Definition spec_is_strat (s : nspec) : bool := match s with SpStrat _ _ _ _ => true | _ => false end.
@@ -78,7 +78,7 @@ Definition init_strat (id : nat) (fi intpos bo_set paper_trade : bool) (comm : t
   mkStrat id fi intpos bo_set paper_trade comm univ kw nrows
           None 0 0 0 1 (npar N) 0 0 0 (npar N) 0 0 false
           (zeros nrows) (zeros nrows) (zeros nrows) (zeros nrows) (zeros nrows) (zeros nrows) (zeros nrows)
-          ucols a.
+          ucols [] [] a.
 
 (* Node.__init__ + StrategyBase.setup for the node [sp] whose parent has
    fixed_income = [pfi]; [is_root] = the node is its own parent *)
